@@ -849,6 +849,16 @@ class SequentialContext:
         else:
             pass
 
+        if on_reset is None:
+            on_reset = cpy._on_reset
+        elif cpy._on_reset is not None:
+            # the actions registered on the context run
+            # in addition to the ones given for this process
+            on_reset = [
+                *(cpy._on_reset if isinstance(cpy._on_reset, list) else [cpy._on_reset]),
+                *(on_reset if isinstance(on_reset, list) else [on_reset]),
+            ]
+
         executors = [] if executors is None else executors
 
         data = _ContextData(
@@ -902,7 +912,7 @@ class SequentialContext:
                 cpy._clk,
                 cpy._reset,
                 step_cond=cpy._step_cond,
-                on_reset=cpy._on_reset if on_reset is None else on_reset,
+                on_reset=on_reset,
                 comment=cpy._comment,
                 attributes=attributes,
                 capture_lazy=cpy._capture_lazy,
